@@ -61,7 +61,7 @@ class Engine(ExprMixin):
         for f in files:
             self.load(f)
         self.solver = z3.Solver()
-        self.solver.set("timeout", 20000)
+        self.solver.set("timeout", 5000)
         self.npaths = 0
         self.curfn = []
         self.pc = []
@@ -181,13 +181,37 @@ class Engine(ExprMixin):
     def assume(self, f):
         self.pc.append(f)
 
+    _hq_cache = {}
+
+    def has_quant(self, f):
+        """does the formula contain a quantifier (such hypotheses are kept out of feasibility queries)"""
+        k = f.get_id()
+        r = self._hq_cache.get(k)
+        if r is None:
+            r = False
+            seen = set()
+            stack = [f]
+            while stack:
+                x = stack.pop()
+                i = x.get_id()
+                if i in seen:
+                    continue
+                seen.add(i)
+                if z3.is_quantifier(x):
+                    r = True
+                    break
+                stack.extend(x.children())
+            self._hq_cache[k] = r
+        return r
+
     def oblige(self, name, goal):
         self.obligations.append((name, list(self.pc), goal))
 
     def feasible(self, extra):
         self.solver.push()
         for c in self.pc:
-            self.solver.add(c)
+            if not self.has_quant(c):  # quantified hypotheses only matter for obligations; dropping them
+                self.solver.add(c)  # over-approximates feasibility, which is sound
         self.solver.add(extra)
         r = self.solver.check()
         self.solver.pop()
@@ -588,9 +612,38 @@ class Engine(ExprMixin):
             return v
         if hasattr(v, "sym_havoc"):
             return v.sym_havoc(self, tag)
-        if v is None or isinstance(v, (SRef, str)):
-            return v  # caller must declare via loop_hooks if these change
+        if v is None or isinstance(v, (SRef, str, SymSeq, Closure, Bound, ClassRef, ModRef)):
+            return v  # rebinding of such names inside a symbolic loop must be declared via loop_hooks
         raise Unsupported(f"havoc of {type(v).__name__} ({tag})")
+
+    MUTATORS = {"append", "extend", "remove", "insert", "pop", "sort", "reverse", "clear", "update", "setdefault", "add"}
+
+    def modified_names(self, body):
+        """names whose binding or (syntactically visible) contents a loop body may change"""
+        out = set()
+
+        def base(n):
+            while isinstance(n, (ast.Subscript, ast.Attribute)):
+                n = n.value
+            return n.id if isinstance(n, ast.Name) else None
+
+        for st in body:
+            for n in ast.walk(st):
+                if isinstance(n, ast.Name) and isinstance(n.ctx, ast.Store):
+                    out.add(n.id)
+                elif isinstance(n, (ast.Subscript, ast.Attribute)) and isinstance(n.ctx, (ast.Store, ast.Del)):
+                    b = base(n)
+                    if b:
+                        out.add(b)
+                elif isinstance(n, ast.AugAssign):
+                    b = base(n.target)
+                    if b:
+                        out.add(b)
+                elif isinstance(n, ast.Call) and isinstance(n.func, ast.Attribute) and n.func.attr in self.MUTATORS:
+                    b = base(n.func.value)
+                    if b:
+                        out.add(b)
+        return sorted(out)
 
     def sym_for(self, s, seq, enum, start, env, cls):
         """Loop over a sequence of symbolic length, cut by the contract's invariant:
@@ -601,9 +654,7 @@ class Engine(ExprMixin):
         if inv is None:
             raise Unsupported(f"loop {key} over symbolic sequence without invariant")
         self.oblige(f"{key[0]}/loop{key[1]}/init", inv(self, env, z3.IntVal(0)))
-        mods = sorted(
-            {n.id for st in s.body for n in ast.walk(st) if isinstance(n, ast.Name) and isinstance(n.ctx, ast.Store)}
-        )
+        mods = self.modified_names(s.body)
         tnames = {n.id for n in ast.walk(s.target) if isinstance(n, ast.Name)}
         hook = self.loop_hooks.get(key)
         for m_ in mods:
